@@ -109,8 +109,34 @@ Theorem C06_filter_equivalence : forall c1 c2 pkts id ff s1 sh1 e1 s2 sh2 e2,
   filter (fun m => in_unitb unit (m_off m)) (k_errors s1) = k_errors s2.
 Proof.
   exact (fun c1 c2 pkts id ff s1 sh1 e1 s2 sh2 e2 H1 H2 H3 H4 H5 H6 H7 H8 H9 H10 =>
-           c06_filter_equiv c1 c2 pkts id (eq_refl : Gen.Facts.cdp_offset_sampled_after = true) (eq_refl : Gen.Facts.error_sort_when_muted = true)
+           c06_filter_equiv_link c1 c2 pkts id (eq_refl : Gen.Facts.cdp_offset_sampled_after = true) (eq_refl : Gen.Facts.error_sort_when_muted = true)
                             H1 H2 H3 H4 H5 H6 H7 H8 H9 H10 ff s1 sh1 e1 s2 sh2 e2).
+Qed.
+(* ... and the same for the stave mode (`check all its-stave`: one validator per FEE id) with --filter-fee id: the filtered run ends with
+   exactly the FEE id's part of what the unfiltered run ends with *)
+Theorem C06_filter_equivalence_fee : forall c1 c2 pkts id ff s1 sh1 e1 s2 sh2 e2,
+  Forall wf_pkt pkts -> N.of_nat (length pkts) < U32_MAX -> pay_all pkts < U32_MAX ->
+  (forall p, In p pkts -> layout_rp (hdr p) (p_payload p)) ->
+  (forall p r, pkts = p :: r -> known_sysid (r_system_id (hdr p)) = true) ->
+  rc_check c2 = rc_check c1 -> (forall p, disp_id (rc_check c1) p = r_fee_id (c_rdh p)) ->
+  sc_filter (rc_scan c1) = None -> sc_filter (rc_scan c2) = Some (F_fee id) -> sc_skip (rc_scan c2) = sc_skip (rc_scan c1) ->
+  let unit := sel (rc_check c1) id (map (mk_cdp (rc_scan c1)) (selected (rc_scan c1) 0 pkts)) in
+  unit <> [] ->
+  run_check ff c1 (serialize pkts) = R_done s1 sh1 e1 -> run_check ff c2 (serialize pkts) = R_done s2 sh2 e2 ->
+  filter (fun m => in_unitb unit (m_off m)) (k_errors s1) = k_errors s2.
+Proof.
+  exact (fun c1 c2 pkts id ff s1 sh1 e1 s2 sh2 e2 H1 H2 H3 H4 H5 H6 H7 H8 H9 H10 =>
+           c06_filter_equiv_fee c1 c2 pkts id (eq_refl : Gen.Facts.cdp_offset_sampled_after = true) (eq_refl : Gen.Facts.error_sort_when_muted = true)
+                            H1 H2 H3 H4 H5 H6 H7 H8 H9 H10 ff s1 sh1 e1 s2 sh2 e2).
+Qed.
+(* the dispatch hypothesis of the two theorems is met by the two kinds of configuration: per link id unless `check all its-stave`, per FEE id there *)
+Theorem C06_dispatch_units : forall vc p,
+  (v_running vc = true /\ v_target vc = T_stave -> disp_id vc p = r_fee_id (c_rdh p)) /\
+  (~ (v_running vc = true /\ v_target vc = T_stave) -> disp_id vc p = r_link_id (c_rdh p)).
+Proof.
+  intros vc p. unfold disp_id. split.
+  - intros [-> ->]. reflexivity.
+  - intros H. destruct (v_running vc); [|reflexivity]. destruct (v_target vc); try reflexivity. exfalso. apply H. split; reflexivity.
 Qed.
 
 Print Assumptions C06_dispatch_key_source_shape.
@@ -131,4 +157,6 @@ Proof. exact (stave_filter_key_when eq_refl). Qed.
 Print Assumptions C06_whole_run.
 Print Assumptions C06_whole_run_independent.
 Print Assumptions C06_filter_equivalence.
+Print Assumptions C06_filter_equivalence_fee.
+Print Assumptions C06_dispatch_units.
 Print Assumptions C06_stave_filter_key.
